@@ -123,7 +123,9 @@ def real_runs(ctx, ncuts):
     tmp = tempfile.mkdtemp(prefix='c14-', dir=C.WORK)
     plan = []
     for case, tev, tf in REAL_CASES[:ctx.n(1, 2)]:
-        cuts = [tev - 1e-4, tev, tev + 1e-4]
+        # boundaries just before / at / just after the event, one inside the transient that follows it
+        # (a snapshot taken there has non-zero state derivatives), the rest anywhere
+        cuts = [tev - 1e-4, tev, tev + 1e-4, round(tev + ctx.rng.uniform(0.1, min(0.6, tf - tev - 0.1)), ctx.rng.choice([1, 2, 4]))]
         while len(cuts) < ncuts:
             cuts.append(round(ctx.rng.uniform(0.2, tf - 0.05), ctx.rng.choice([1, 2, 4])))
         plan.append((case, tev, tf, cuts[:ncuts]))
